@@ -603,7 +603,11 @@ var c18StyleVals = []string{"color:red", "color:red;position:fixed", "position:f
 	"color:red;\nposition:fixed", "", " ", ";", "bacKground-color:red;position:fixed", "@import 'x';", "color:red\x00;position:fixed", "p\\osition:fixed", "\\70osition:fixed",
 	"color:red;posi/**/tion:fixed", "width:1px;x:y;height:2px", "color:r\"ed", "color:url(\"a\"b);position:fixed", "color:red;</style><script>alert(1)</script>"}
 var c18Texts = []string{"hi", " ", "x<y", "&amp;", "&lt;script&gt;", "alert(1)", "<!-- c -->", "<!--", "-->", "<![CDATA[x]]>", "<?xml?>", "<!DOCTYPE html>", "</", "<", ">", "\"", "'",
-	"p{color:red}", "</script>", "</style>", "</textarea>", "</title>", "<\x00script>", "\x00", "é", "\xff"}
+	"p{color:red}", "</script>", "</style>", "</textarea>", "</title>", "<\x00script>", "\x00", "é", "\xff",
+	// markup-declaration openers that different tokenizer settings read differently (CDATA sections, conditional
+	// comments, bogus comments, processing instructions): whatever follows them must still be sanitised
+	"<![CDATA[", "<![CDATA[>", "]]>", "<![cdata[", "<![CDATA[ x", "<!", "<!>", "<?", "?>", "<!-", "--!>", "<!--->", "<!---->", "<![if gte mso 9]>", "<![endif]>",
+	"<!--[if mso]>", "<![endif]-->", "<!ENTITY x>", "<![", "]>", "<!--<!--", "<svg><![CDATA[", "<math><![CDATA["}
 
 func c18RandAttr(r *rand.Rand) string {
 	k := c18AttrKeys[r.Intn(len(c18AttrKeys))]
